@@ -487,7 +487,7 @@ impl Model {
     ) -> (Option<String>, Option<usize>, bool, bool, bool) {
         let di = declared_integrity(integ, algo, data).map(|s| blob::sri_canon(&s).unwrap());
         let ds = declared_size(declare, data.len());
-        let ok_int = matches!(integ, IntegDecl::None | IntegDecl::Correct | IntegDecl::MultiWithCorrect);
+        let ok_int = matches!(integ, IntegDecl::None | IntegDecl::Correct | IntegDecl::MultiWithCorrect | IntegDecl::MultiTwoAlgos);
         let undecided_int = matches!(integ, IntegDecl::OtherAlgoCorrect);
         let ok_size = ds.map(|n| n == data.len()).unwrap_or(true);
         (di, ds, ok_int, undecided_int, ok_size)
@@ -537,6 +537,26 @@ impl Model {
             declare,
             integ
         );
+        // another process interfered between the last chunk and the commit: the cache state is
+        // what that process left, and the commit may fail with any error
+        let interfered = s.interfere != Interfere::None && s.streamed();
+        if interfered {
+            match s.interfere {
+                Interfere::Clear => {
+                    self.index.clear();
+                    self.content.clear();
+                    self.index_dir = false;
+                    self.list_unjudged = false;
+                }
+                Interfere::RemoveContentArea => self.content.clear(),
+                _ => {}
+            }
+            if let Out::Err(..) = out {
+                self.adopt_content(ctx, &addr);
+                self.index_dir = ctx.cache.join("index-v5").exists();
+                return Ok(());
+            }
+        }
         let must_succeed = ok_int && ok_size;
         match out {
             Out::Int(x) => {
